@@ -277,12 +277,13 @@ def run(ctx):
 
     if spec["kind"] == "gen":
         for cr in cases:
-            if cr.get("skipped") and cr["verdict"] is None:
-                continue
+            if cr["kind"] in ("skipped", "dump"):
+                continue          # no observation of the implementation
             evaluated += 1
             if cr["verdict"] is None:
-                continue
-            if cr["verdict"] not in OK_VERDICTS:
+                # outside the model (the harness says why): no correspondence, the oracle still applies
+                notes.append("%s: not comparable with the model (%s); oracle only" % (cr["case"]["id"], cr.get("skipped")))
+            elif cr["verdict"] not in OK_VERDICTS:
                 kinds = diff_kinds(cr) if cr["verdict"] == "DIFF-structure" else None
                 rel = RELEVANT_DIFF.get(ctx.pid)
                 unparsable = bool((cr.get("facts") or {}).get("parse_error"))
